@@ -1375,6 +1375,23 @@ class Engine:
     def str_const(self, s):
         return PyConst(s)
 
+    def str_code(self, text):
+        """the code of a string literal; distinct literals have distinct codes (global axiom added on first use)"""
+        known = getattr(Engine, "_str_codes", None)
+        if known is None:
+            known = Engine._str_codes = {}
+        if text not in known:
+            c = z3.Real("str:" + text)
+            for other in known.values():
+                self_ax = c != other
+                Engine._str_axioms = getattr(Engine, "_str_axioms", []) + [self_ax]
+            known[text] = c
+        for ax in getattr(Engine, "_str_axioms", []):
+            if not any(ax.eq(x) for x in self.global_axioms):
+                self.global_axioms = list(self.global_axioms) + [ax]
+                self.psum_used = True          # (the flag that makes the global axioms part of every obligation of this function)
+        return known[text]
+
     def ex_JoinedStr(self, e, st, spec):
         """f-string: with exactly one formatted integer it is an injective function of that integer (str(int) is injective and the
         literal parts are fixed); any other f-string is message text, never inspected"""
@@ -1661,6 +1678,11 @@ class Engine:
             return self.eq(b, a, st, spec)
         if isinstance(a, PyConst) and isinstance(b, PyConst):
             return z3.BoolVal(a.value == b.value)
+        # a string-valued term compared with a literal: literals get pairwise distinct codes (strings are real-coded, S5)
+        if isinstance(b, PyConst) and isinstance(b.value, str) and is_z3(a) and a.sort() == R:
+            return a == self.str_code(b.value)
+        if isinstance(a, PyConst) and isinstance(a.value, str) and is_z3(b) and b.sort() == R:
+            return b == self.str_code(a.value)
         if isinstance(a, Rec) and isinstance(b, Rec) and a.cls == b.cls:
             return z3.And(*[self.eq(a.fields[k], b.fields[k], st, spec) for k in a.fields])
         r = self.eq_other(a, b, st, spec)
@@ -2039,6 +2061,9 @@ class Engine:
             return to_real(self.ev(e.args[0], st, True))
         if name == "true":
             return z3.BoolVal(True)
+        if name == "isint":
+            v = self.ev(e.args[0], st, True)
+            return z3.BoolVal(True) if is_int(v) else z3.IsInt(to_real(v))
         if name in ("psum", "rpsum"):
             a, k = [self.ev(x, st, True) for x in e.args]
             return self.psum_fun(a.dtype if isinstance(a, Arr) else ("int" if name == "psum" else "f64"), st)(
